@@ -192,6 +192,24 @@ pub proof fn lemma_C15_FINDING_outgoing_from_range_fallback(v: NavV, p: PV, d: D
         out_call_for(v, p, d, dep, dd, u).from_ranges[0] == out_call_for(v, p, d, dep, dd, u).to.selection_range,
 {}
 
+//@tags C15
+/// the from-range find_parameter_ranges reports: on the definition's protocol line, from the byte column of the first
+/// SUBSTRING occurrence of the name on that line to that column + the UTF-8 length of the name; well-formed and
+/// untruncated when the end column fits (explicit hypothesis).  NOTE: substring, not parameter: see the report
+/// (`def my_db(db)` -> the `db` inside `my_db`).
+pub proof fn lemma_C15_param_range_exact(cache: Map<PV, String>, file: PV, line: usize, name: Seq<char>)
+    requires 1 <= line, line_fits(line), param_ranges(cache, file, line, name) is Some,
+        str_find(text_lines(Some(cache[file]@))[line - 1], name)->0 + utf8_len(name) <= 0xffff_ffff,
+    ensures ({
+        let r = (param_ranges(cache, file, line, name)->0)[0];
+        let s = str_find(text_lines(Some(cache[file]@))[line - 1], name)->0;
+        &&& (param_ranges(cache, file, line, name)->0).len() == 1
+        &&& r.start.line as int == line - 1 && r.end.line == r.start.line
+        &&& r.start.character as int == s && r.end.character as int == s + utf8_len(name)
+        &&& range_wf(r)
+    })
+{}
+
 // ---- vacuity guards: each of these must FAIL -------------------------------------------------------------------
 /// outgoing calls resolve dependencies as go-to-definition does (FALSE: F-05b, and the self-dependency finding)
 proof fn canary_outgoing_resolves_like_goto(v: NavV, p: PV, dep: Seq<char>)
